@@ -14,6 +14,7 @@ use parking_lot::RwLock;
 #[cfg(prometheus_verif)]
 use crate::verif::sync::RwLock;
 
+use crate::desc::{is_valid_label_name, is_valid_metric_name};
 use crate::errors::{Error, Result};
 use crate::metrics::Collector;
 use crate::proto;
@@ -267,6 +268,25 @@ impl Registry {
         if let Some(ref namespace) = prefix {
             if namespace.is_empty() {
                 return Err(Error::Msg("empty prefix namespace".to_string()));
+            }
+            // `<prefix>_<name>` is a valid metric name for every valid
+            // `<name>` exactly when the prefix is one itself.
+            if !is_valid_metric_name(namespace) {
+                return Err(Error::Msg(format!(
+                    "'{}' is not a valid prefix namespace",
+                    namespace
+                )));
+            }
+        }
+
+        if let Some(ref labels) = labels {
+            for label_name in labels.keys() {
+                if !is_valid_label_name(label_name) {
+                    return Err(Error::Msg(format!(
+                        "'{}' is not a valid label name",
+                        label_name
+                    )));
+                }
             }
         }
 
